@@ -100,8 +100,8 @@ class Ellipse(Shape2D):
             scale (float):
                 Scale factor.
         """
-        self.a *= scale
-        self.b *= scale
+        self.a = self.a * scale
+        self.b = self.b * scale
 
     @property
     def area(self):
